@@ -216,6 +216,19 @@ pub fn seq_from(pos: usize) -> Vec<String> {
     }
 }
 
+/// every I/O event (Begin AND End; steps excluded) logged from position `pos` on: `<Phase>:<file>:<Kind>:<site>`
+pub fn events_from(pos: usize) -> Vec<String> {
+    let g = STATE.lock().unwrap();
+    match g.as_ref() {
+        Some(s) => s.log[pos.min(s.log.len())..]
+            .iter()
+            .filter(|e| e.file != "STEP" && !e.file.starts_with("ABORT"))
+            .map(|e| format!("{:?}:{}:{:?}:{}", e.phase, e.file.split(':').next().unwrap_or(""), e.kind, e.site))
+            .collect(),
+        None => vec![],
+    }
+}
+
 pub fn begins() -> u64 {
     STATE.lock().unwrap().as_ref().map(|s| s.begins).unwrap_or(0)
 }
